@@ -115,8 +115,23 @@ def _py_prefix_facts(mod):
         return facts
     guards = [x for x in stmts if isinstance(x, ast.If) and
               any(isinstance(y, ast.Expr) and isinstance(y.value, ast.Yield) for y in x.body)]
+    # a guard counts only if it is evaluated on every path to the recursion into the children
+    from ..py_frontend import pycfg as _pycfg
+    _cfg = _pycfg(fn)
+    _rec = [_cfg.ast_to_node.get(id(c)) for c in calls_under(fn) if call_name(c) == fn.name]
+    _rec = [r for r in _rec if r is not None]
+
+    def on_every_path(g):
+        first_atom = _conjuncts(g.test)[0]
+        while isinstance(first_atom, ast.UnaryOp) and isinstance(first_atom.op, ast.Not):
+            first_atom = first_atom.operand
+        gn = _cfg.ast_to_node.get(id(first_atom))
+        return gn is not None and bool(_rec) and all(_cfg.dominates(gn, r) for r in _rec)
     for g in guards:
         cj = _conjuncts(g.test)
+        if not pmatch(g.test, '?pks != ?fks', env) and not on_every_path(g):
+            facts['why'][src(g.test)[:40]] = 'not evaluated on every path to the recursion'
+            continue
         if any(pmatch(c, '?pt is not ?ft', env) for c in cj):
             facts['type'] = any(pmatch(c, 'not ?bsd', env) for c in cj) and len(cj) == 2
             facts['why']['type'] = src(g.test)
